@@ -12,24 +12,27 @@ CFG = {
             "distinct by (bytes, reads)",
     "trusted_base": ["Spec/VT500.lean: transcription of the Williams VT500 table and the seven documented extensions (reviewed by hand)",
                      "Model/ParserIO.lean: transcription of utf8.DecodeRune/FullRune and of bufio's fill loop (stdlib, by reading; validated by correspondence; the decoder is characterised "
-                     "independently by the utf8_* theorems and equals the Spec's Table 3-7 decoder); readRune/print/emit bodies are pinned statement by statement (regenerated skeletons), not interpreted",
-                     "uniseg is a parameter (clusterAt), computed by the harness with the real library; its prefix hypothesis and the Respects hypothesis (never joins a C0 control: counter oracle-joins-c0 = 0) are checked per case",
+                     "independently by the utf8_* theorems and equals the Spec's Table 3-7 decoder); the bodies of readRune/print are interpreted from the regenerated skeletons (readRune_body_eq_model, print_body_eq_model) "
+                     "over this reader model: what is trusted is the meaning given to ReadRune/UnreadRune/ReadByte/Buffered and FirstGraphemeClusterInString = 'split the builder at the oracle's cluster length'",
+                     "uniseg is a parameter (clusterAt, widths), computed by the harness with the real library; its prefix hypothesis, the Respects hypothesis (never joins a C0 control: counter oracle-joins-c0 = 0) "
+                     "and the width hypothesis of print_width (verdict W!) are checked per case",
                      "extractor recognition of action bodies is by local variable name (a pure rename degrades to unknown: false alarm, never a miss)"],
-    "assumptions": ["the cluster oracle never extends a cluster over a C0 control (uniseg GB4/GB5) - hypothesis Respects of the whole-stream theorems; text_blocks needs no hypothesis",
-                    "Print width is outside the model (checked by the harness only)"],
+    "assumptions": ["the cluster oracle never extends a cluster over a C0 control (uniseg GB4/GB5) - hypothesis Respects of the whole-stream theorems (needed: chunk_independent_needs_c0_oracle); text_blocks and text_conserved need no hypothesis",
+                    "the width uniseg reports for a first cluster, when not 0, is StringWidth of that cluster (hypothesis of print_width)"],
     "level_text": "Proved for all states/runes/streams: regenerated transition table = Williams VT500 table + extensions (all 16 state functions x every rune and eof); "
                   "hand model = regenerated table; CSI/ESC/SS3/OSC/DCS/APC round trips from any state with exactly-once delivery; invariant (exit function matches state, ST flag only in strings/escape), "
                   "no panic, no leak of left-over intermediates/parameters, malformed sequences deliver nothing. "
                   "Round 2 - UTF-8: decode(encode r ++ rest) = r :: decode rest for every scalar, encode(decode) = the bytes consumed, invalid bytes delivered as themselves, decoder = the Spec's Table 3-7 decoder. "
-                  "Reading side for ALL byte streams: for every split into reads at any byte offsets and every cluster oracle that never joins a C0 control or an invalid byte, the delivered items "
-                  "(modulo merging adjacent Prints) equal the automaton run over the decoded stream - hence read-split independence and text conservation for every byte stream; for text and ANY oracle each Print is one "
-                  "oracle cluster unless cut exactly at a read boundary, and carries U+FFFD for an absorbed invalid byte (= finding F102d, exactly). "
+                  "Reading side for ALL byte streams: for every split into reads at any byte offsets and every cluster oracle that never joins a C0 control, the delivered items "
+                  "(modulo merging adjacent Prints) equal the automaton run over the decoded stream - hence read-split independence for every byte stream; text conservation for ANY oracle; for text each Print is one "
+                  "oracle cluster unless cut exactly at a read boundary or in front of an invalid byte, and carries its units unaltered (F102d is repaired: the look-ahead leaves an invalid byte to readRune). "
                   "Whole-stream refinement model <= Spec.VT500: simulation relation, table-wide step check kernel-decided for all states x control flags x runes, every byte stream and read splitting delivers exactly the Spec's items "
-                  "with F102/F102c switched on (and the Spec proper on every stream avoiding the two trigger situations); inside the F102d region (oracle only assumed never to join a C0 control) "
-                  "the items are the Spec's for the decoded stream with, at most, invalid bytes read as U+FFFD; both parameter decoders equal the Spec's on any collected bytes including Go int overflow "
-                  "(CSI wraps mod 2^64, DCS >= 2^63 => error + nil parameters). Action bodies (collect ... csiDispatch, hook) are interpreted from statement skeletons regenerated from the source.",
-    "level_note": "Proved: see notes/C02.md tables (Props/C02, C02Text, C02Refine, C02Acts: 80 theorems). Validated by correspondence only: the meaning of bufio/utf8 stdlib calls in Model/ParserIO.lean, Print width. "
-                  "False with witness (recorded findings): F102 ST of an empty string delivered, F102c C0 inside ST, F102d invalid byte joined by the oracle -> U+FFFD "
-                  "(negations of chunk_independent_full, text_conserved_full, model_refines_spec_full in Witness/F102.lean). Fixed in /repo: F05, F07, F102b.",
+                  "with F102 switched on (and the Spec proper on every stream avoiding an ESC into a control string without payload); the exclusions of round 2 for F102c (C0 inside ST) and F102d (invalid byte joined) are gone - both repaired in /repo; "
+                  "both parameter decoders equal the Spec's on any collected bytes including Go int overflow "
+                  "(CSI wraps mod 2^64, DCS >= 2^63 => error + nil parameters). Action bodies (collect ... csiDispatch, hook) and the bodies of readRune and print (incl. the Print width) are interpreted from statement skeletons regenerated from the source; "
+                  "the interpretation equals the model functions for every reader state.",
+    "level_note": "Proved: see notes/C02.md tables (Props/C02, C02Text, C02Refine, C02Acts, Witness/F102: 86 theorems). Validated by correspondence only: the meaning of the bufio/utf8 stdlib calls in Model/ParserIO.lean / ParserReaderInterp.lean. "
+                  "False with witness (recorded finding): F102 ST of an empty string delivered (negation of model_refines_spec_full in Witness/F102.lean; pinned by a baseline test). "
+                  "Fixed in /repo: F05, F07, F102b, F102c (44d8b73), F102d (6b7d19e) - their witnesses are regression theorems and corpus cases now.",
     "timeout": 1800,
 }
